@@ -6,11 +6,16 @@ import GoSecs.Drv.Secs2
 
 open GoSecs
 
+/-- One handler per model; each returns `none` for commands it does not own. -/
+def handlers : List (String → List String → Option String) := [
+  Drv.Secs2.handle
+]
+
 def dispatch (line : String) : String :=
   match (line.trimAscii.toString.splitOn " ").filter (· != "") with
   | [] => "bad-op"
   | cmd :: args =>
-    match Drv.Secs2.handle cmd args with
+    match handlers.findSome? (fun h => h cmd args) with
     | some r => r
     | none => "bad-op unknown-command"
 
